@@ -145,7 +145,7 @@ func (u *PsipURI) Truncate() {
 // point inside "newpos" (the uri start offset will become newpos.Offs).
 func (u *PsipURI) AdjustOffs(newpos PField) bool {
 	offs := newpos.Offs // new start
-	end := offs + newpos.Len
+	end := int(offs) + int(newpos.Len)
 	if (u.Scheme.Len + u.User.Len + u.Pass.Len + u.Host.Len + u.Port.Len +
 		u.Params.Len + u.Headers.Len) > newpos.Len {
 		if DBGon() {
@@ -157,31 +157,31 @@ func (u *PsipURI) AdjustOffs(newpos PField) bool {
 	}
 	saved := *u // restored if newpos turns out to be too small
 	start := u.Scheme.Offs
-	last := offs
+	last := int(offs)
 	u.Scheme.Offs = offs
 	if u.User.Offs != 0 {
+		last = int(offs) + int(u.User.Offs-start) + int(u.User.Len)
 		u.User.Offs = u.User.Offs - start + offs
-		last = u.User.Offs + u.User.Len
 	}
 	if u.Pass.Offs != 0 {
+		last = int(offs) + int(u.Pass.Offs-start) + int(u.Pass.Len)
 		u.Pass.Offs = u.Pass.Offs - start + offs
-		last = u.Pass.Offs + u.Pass.Len
 	}
 	if u.Host.Offs != 0 {
+		last = int(offs) + int(u.Host.Offs-start) + int(u.Host.Len)
 		u.Host.Offs = u.Host.Offs - start + offs
-		last = u.Host.Offs + u.Host.Len
 	}
 	if u.Port.Offs != 0 {
+		last = int(offs) + int(u.Port.Offs-start) + int(u.Port.Len)
 		u.Port.Offs = u.Port.Offs - start + offs
-		last = u.Port.Offs + u.Port.Len
 	}
 	if u.Params.Offs != 0 {
+		last = int(offs) + int(u.Params.Offs-start) + int(u.Params.Len)
 		u.Params.Offs = u.Params.Offs - start + offs
-		last = u.Params.Offs + u.Params.Len
 	}
 	if u.Headers.Offs != 0 {
+		last = int(offs) + int(u.Headers.Offs-start) + int(u.Headers.Len)
 		u.Headers.Offs = u.Headers.Offs - start + offs
-		last = u.Headers.Offs + u.Headers.Len
 	}
 	if last > end {
 		// the fields fit, but not together with the delimiters between them
